@@ -256,6 +256,15 @@ def rule_relative_space_clamp(ctx: Ctx) -> RuleResult:
     return rr
 
 
+def _memo_children(ctx: Ctx):
+    """stale memoised widths hand a packed child neither its own size nor nothing (C06.7 is a necessary condition here)"""
+    from . import c06
+
+    r = c06.rule_memo_children(ctx)
+    r.clause = "C19.8"
+    return r
+
+
 def run(ctx: Ctx):
     p = ctx.p
     return [
@@ -268,6 +277,7 @@ def run(ctx: Ctx):
         axis.run_axis(p, "C19.5", ("urwid.widget",), floor=60),
         accum.run_accum(p, "C19.6", "C19", floor=2),
         rule_relative_space_clamp(ctx),
+        _memo_children(ctx),
     ]
 
 
